@@ -161,6 +161,29 @@ def run(model, rep, tier):
             if isinstance(n, ast.Subscript) and isinstance(n.ctx, (ast.Store, ast.Del)) and isinstance(n.value, ast.Attribute) and n.value.attr == "index" and f.module.name in ("dns.message", "dns.update"):
                 rep.check(f.qualname == "dns.message.Message.find_rrset", "R-03.4", f.qualname, where(f, n), "Message.index written in find_rrset", "Message.index is written outside find_rrset", stmt="index-write")
     rep.check("if ttl > 2147483647: ttl = 0" in tg, "R-03.4", gs.qualname, where(gs, gs.node), "TTLs with the top bit set are read as 0 (RFC 2181 8)", "TTL clamping changed", stmt="ttl-clamp")
+    # header hooks called by the readers may only use state the reader populated: a message built by the reader is
+    # constructed as factory(id=id), so attributes derived from other constructor parameters hold defaults
+    msg = model.cls("dns.message.Message")
+    n_hooks = 0
+    for ci in [msg] + model.subclasses(msg):
+        init = ci.methods.get("__init__")
+        ctor_only = set()
+        if init is not None:
+            params = [p_ for p_ in init.params() if p_ not in ("self", "id")]
+            for n in ast.walk(init.node):
+                if isinstance(n, ast.Assign) and len(n.targets) == 1 and isinstance(n.targets[0], ast.Attribute) and src(n.targets[0].value) == "self":
+                    names = {x.id for x in ast.walk(n.value) if isinstance(x, ast.Name)}
+                    if names & set(params) and n.targets[0].attr not in ("origin",):
+                        ctor_only.add(n.targets[0].attr)
+        for hook in ("_parse_rr_header", "_parse_special_rr_header", "_get_one_rr_per_rrset"):
+            f = ci.methods.get(hook)
+            if f is None:
+                continue
+            n_hooks += 1
+            used = sorted({n.attr for n in ast.walk(f.node) if isinstance(n, ast.Attribute) and src(n.value) == "self" and n.attr in ctor_only})
+            rep.check(not used, "R-03.4", f.qualname, where(f, f.node), "parser hook uses only state the reader populated (sections, flags)",
+                      f"parser hook reads self.{', self.'.join(used)}, which only the user-facing constructor sets: for a message built by the wire/text reader it holds the default (e.g. class IN), so decoded records differ from the rendered ones", stmt="hook-state")
+    rep.floor("R-03.4-hooks", n_hooks, 3)
     rep.meta["explanation"] = (
         "Layout agreement of the hand-written writer/reader pairs at the message layer (struct formats folded and compared field by field), statement-position rule for the section counts, "
         "provenance of the compression table argument at every to_wire call that receives the renderer's buffer, and who-may-write on the section index. "
@@ -184,6 +207,8 @@ WITNESSES = [
      "old": "self.output.write(struct.pack(\"!HH\", rdtype, rdclass))", "new": "self.output.write(struct.pack(\"!HH\", rdclass, rdtype))"},
     {"id": "c03-reader-appends-directly", "rule": "R-03.4", "file": "dns/message.py", "expect": "fires",
      "old": "            self.message.find_rrset(\n                section, qname, rdclass, rdtype, create=True, force_unique=True\n            )", "new": "            section.append(dns.rrset.RRset(qname, rdclass, rdtype))"},
+    {"id": "c03-update-hook-ctor-state", "rule": "R-03.4", "file": "dns/update.py", "expect": "fires",
+     "old": "                rdclass = self.zone[0].rdclass", "new": "                rdclass = self.zone_rdclass"},
     {"id": "c03-twin-count-var", "rule": "R-03.2", "file": "dns/renderer.py", "expect": "silent",
      "old": "            n = rdataset.to_wire(name, self.output, self.compress, self.origin, **kw)\n        self.counts[section] += n", "new": "            n = rdataset.to_wire(name, self.output, self.compress, self.origin, **kw)\n        # count the RRs just written\n        self.counts[section] += n"},
 ]
